@@ -261,6 +261,14 @@ def _int_modules():
     return I, c07
 
 
+class SharingLost(Exception):
+    """a non-committing ask left the IntegratorLearner with containers that no longer share their intervals"""
+
+    def __init__(self, msg, ops):
+        super().__init__(msg)
+        self.ops = ops
+
+
 class NCRecorder:
     """impl_integrator.Recorder plus ask(n, tell_pending=False).  utils.restore replaces the learner's __dict__ by a deep
     copy: every _Interval is a NEW object afterwards, so the recorder's interval ids are re-attached by walking the old and
@@ -290,6 +298,19 @@ class NCRecorder:
         walk(old_first, l.first_ival)
         if len(new_ids) != len(ids_before):
             raise I.InstrumentationError("interval tree after restore does not match the tree before the non-committing ask")
+        # The learner's containers must refer to the intervals OF THE TREE (as before the call): ivals, x_mapping and
+        # priority_split share the _Interval objects reachable from first_ival.  A roll-back that brings the containers back
+        # with equal-looking but separate interval objects has not restored the state: later tells complete the copies in
+        # x_mapping while ivals / the tree never learn about it.
+        stray = [("ivals", iv) for iv in l.ivals if iv not in new_ids]
+        stray += [("x_mapping", iv) for ivs in l.x_mapping.values() for iv in ivs if iv not in new_ids]
+        stray += [("priority_split", iv) for iv in l.priority_split if iv not in new_ids]
+        if stray:
+            raise SharingLost(f"after ask({n}, tell_pending=False) learner.{stray[0][0]} holds an interval object "
+                              f"({float(stray[0][1].a)}, {float(stray[0][1].b)}) that is not the one in the interval tree "
+                              f"(first_ival): {len(stray)} references no longer shared -- the state was not restored",
+                              [[s["op"][0], s["op"][1] if s["op"][0] != "tell" else float(s["op"][1]).hex()] for s in rec.steps]
+                              + [["ask_nc", int(n)]])
         rec.ids = new_ids
         rec.order = sorted(new_ids, key=new_ids.get)
         pts = [float(x) for x in out[0]] if out is not None else []
@@ -404,6 +425,12 @@ def int_correspondence(chk, tag, ncases, max_ops, p_nc):
             rec, info = int_drive(cfg, rng, max_ops, p_nc)
         except I.InstrumentationError as e:
             broken.append((k, str(e)))
+            continue
+        except SharingLost as e:
+            if not tot.get("sharing_lost"):
+                chk.fail("C09:integrator_nc_ask_unshares_intervals", f"IntegratorLearner {cfg}: {e}",
+                         {"kind": "integrator+nc", "cfg": cfg, "ops": e.ops})
+            tot["sharing_lost"] = tot.get("sharing_lost", 0) + 1
             continue
         for kk, v in info.items():
             tot[kk] = tot.get(kk, 0) + v
